@@ -17,6 +17,15 @@ CHECKS["C15"] = dict(cat="exploration", tech="deterministic baton scheduler over
 CHECKS["C17"] = dict(cat="exploration", tech="bounded-exhaustive path enumeration against a scratch tree with marker files; disclosure oracle on WSGI responses",
     text="Every path of <=4 (quick) / <=5 (thorough) segments over the adversarial segment alphabet, absolute and relative, is sent to every route of the WSGI app; any marker token or directory listing from outside the route's root is a violation. Exhaustive within the bound (1.2M / 20M requests).",
     ref="DESIGN.md section 4 C17")
+CHECKS["C05"] = dict(cat="exploration", tech="Hypothesis script assembly with separator/comment noise; splitter oracle + differential against per-statement analysis combined through SQLLineageHolder.of",
+    text="Scripts of 1-5 calibrated corpus statements joined by every separator/noise variant (semicolons in comments and literals, comment-only statements, tsql no-semicolon mode) must report exactly the generated statements in order and the same tables, edges and column paths as the combination of the statements analysed alone. Sampled (2k quick / 30k thorough scripts).",
+    ref="DESIGN.md section 4 C05")
+CHECKS["C07"] = dict(cat="exploration", tech="metamorphic testing: lexer-driven meaning-preserving rewrites of corpus SQL (Hypothesis random edits; thorough: every single-site edit)",
+    text="Each corpus statement (test-suite SQL in its dialect + TPC-DS) is rewritten at token level (whitespace, inserted comments, case of unquoted words, quoting of lower-case identifiers, trailing semicolons) and must give the same tables and column pairs. Quick samples 1-8 random edits per case plus all-sites-at-once; thorough enumerates every single-site rewrite.",
+    ref="DESIGN.md section 4 C07")
+CHECKS["C10"] = dict(cat="exploration", tech="structure-aware mutation fuzzing (Hypothesis) with exception-type oracle and call-site bucketing; silent-mode differential",
+    text="Mutated corpus statements (token delete/duplicate/swap/insert of SQL, quoting and templating metacharacters, cross-over, truncation, bracket nesting) under all 29 dialects must end in a result or a library exception; parser-rejected single statements must be InvalidSyntaxException; silent mode must equal the script without the unsupported statement and warn. Sampled; biased to near-valid SQL.",
+    ref="DESIGN.md section 4 C10")
 NA = {}
 def main():
     props = [json.loads(l)["id"] for l in open(os.path.join(HOME, "properties.jsonl"))]
